@@ -454,3 +454,44 @@ def s8(ctx):
                           "%s can start serving without backend._mark_as_principal(current_user_principal): after a restart without --autocreate the principal "
                           "directory is served as a plain collection (no principal resource type, no home sets) and discovery fails" % f.short))
     return obs
+
+
+@rule("C18", "S9", floor=3, kind="S",
+      desc="discovery reports collections with their real type: a metadata back end without a recorded type says so "
+           "(KeyError), so that GitStore.get_type falls back to looking at the contents; and request paths lose "
+           "exactly the route prefix (no character-set strip)")
+def s9(ctx):
+    from .c17 import strip_obligations
+    obs = list(strip_obligations(ctx))
+    gt = ctx.own_method("xandikos.store.git.GitStore", "get_type")
+    cfg = ctx.cfg(gt)
+    sites = [n for n in cfg.stmt_nodes() for c in n.calls() if (dotted(c.func) or "").endswith("config.get_type")]
+    from .common import handler_catching
+    fb = False
+    for n in sites:
+        h = handler_catching(cfg, n, "KeyError")
+        if h is not None and any(any((dotted(c.func) or "").endswith("get_type") and "super" in (dotted(c.func) or src(c.func)) for c in b.calls())
+                                 for b in cfg.nodes if b.handler is h):
+            fb = True
+    obs.append(ctx.ob(fb, gt.qualname, gt.where, "no recorded type -> the type is derived from the contents",
+                      "KeyError from config.get_type() falls back to Store.get_type()",
+                      "GitStore.get_type no longer falls back to the content-based guess when no type is recorded"))
+    for cq in ("xandikos.store.config.FileBasedCollectionMetadata", "xandikos.store.git.RepoCollectionMetadata"):
+        f = ctx.own_method(cq, "get_type")
+        cfgf = ctx.cfg(f)
+        # a default for the missing key hides the absence: .get("type", <default>) / except KeyError: return <const>
+        dflt = [src(c) for n in cfgf.stmt_nodes() for c in n.calls() if isinstance(c.func, ast.Attribute) and c.func.attr == "get" and len(c.args) >= 2
+                and any(ctx.P.try_fold(f.module, a) in ("type", b"type") for a in c.args[:2])
+                and not (len(c.args) == 2 and ctx.P.try_fold(f.module, c.args[0]) in ("xandikos", b"xandikos"))]
+        swallowed = []
+        for h in cfgf.handlers:
+            if h.types and "KeyError" in h.types:
+                body = [b for b in cfgf.nodes if b.handler is h]
+                if any(b.kind == "return" for b in body) and not any(b.kind == "raise" for b in body):
+                    swallowed.append("except KeyError: return ...")
+        bad = dflt + swallowed
+        obs.append(ctx.ob(not bad, f.qualname, f.where, "absent type is reported as KeyError", "no default for a missing type",
+                          "%s answers a collection without a recorded type with a default (%s): GitStore.get_type never reaches its content-based "
+                          "fallback and calendars / address books that were not created through the server are listed as plain collections"
+                          % (f.short, ", ".join(bad))))
+    return obs
